@@ -4,7 +4,7 @@
 # passes and that demo.py fails with / passes without the change, then runs the check against the changed tree.
 P=$1; D=$2; T=${3:-quick}
 WT=/tmp/wt-seed-$$
-git -C /repo worktree add --detach $WT HEAD -q || exit 2
+git -C /repo worktree add --detach $WT ${SEED_BASE:-HEAD} -q || exit 2
 trap 'git -C /repo worktree remove --force '$WT' >/dev/null 2>&1' EXIT
 cd $WT
 git apply "$D/patch.diff" || { echo "patch does not apply"; exit 2; }
